@@ -537,7 +537,7 @@ Proof.
   cbn [m_attach_all]. rbind; [exact R|]. rdone.
 Qed.
 
-Lemma splice_replace_spec ts rs pr cr tid ri T p kd pre x post tc rc C :
+Lemma splice_replace_spec_x ts rs pr cr tid ri T p kd pre x post tc rc C :
   nth_error rs pr = Some (Some (mk_hnd tid p)) -> nth_error rs cr = Some (Some (mk_hnd tc [])) ->
   nth_error ts tid = Some (mk_slot true ri T) -> get_path T p = Some (Node kd (pre ++ x :: post)) ->
   nth_error ts tc = Some (mk_slot true rc C) -> tid <> tc ->
@@ -550,7 +550,8 @@ Lemma splice_replace_spec ts rs pr cr tid ri T p kd pre x post tc rc C :
     (forall j, j <> tid -> j <> tc -> j < length ts -> nth_error ts' j = nth_error ts j) /\
     F (mk_hnd tid (p ++ [length pre])) = mk_hnd (length ts) [] /\
     F (mk_hnd tc []) = mk_hnd tid (p ++ [length pre]) /\
-    (forall g, h_tid g <> tc -> above tid p g -> F g = g).
+    (forall g, h_tid g <> tc -> above tid p g -> F g = g) /\
+    (forall c rest, c <> length pre -> F (mk_hnd tid (p ++ c :: rest)) = mk_hnd tid (p ++ c :: rest)).
 Proof.
   intros Hp Hc HT HG HC Hne.
   pose proof (nth_error_Some_lt _ _ _ HC) as Hlc. pose proof (nth_error_Some_lt _ _ _ HT) as Hlt.
@@ -572,7 +573,7 @@ Proof.
   destruct (attach_child_spec ts1' (map (option_map F1) rs) pr cr tid ri _ p kd (pre ++ post) (length pre) tc rc C
               Hp1 Hc1 T1' HG1 HC1 Hne ltac:(rewrite app_length; lia)) as (ts2 & R2 & L2 & T2 & O2).
   exists ts2, (fun g => rebase_attach tid p (length pre) tc (F1 g)).
-  rewrite <- map_option_map_comp. repeat split.
+  rewrite <- map_option_map_comp. split; [|split; [|split; [|split; [|split; [|split; [|split; [|split]]]]]]].
   - unfold m_splice. rbind; [apply runs_get_reg; exact Hp|]. cbn [h_tid].
     rbind; [eapply runs_get_slot; exact HT|]. cbn [s_mut negb].
     rbind; [eapply runs_children_of; [exact HT|exact HG]|]. cbn [children].
@@ -591,6 +592,30 @@ Proof.
     rewrite rebase_detach_at. apply rebase_attach_root. lia.
   - unfold F1. rewrite rebase_detach_root. apply rebase_attach_child.
   - intros g Hg Ha. unfold F1. rewrite rebase_detach_above by exact Ha. now apply rebase_attach_above.
+  - intros c rest Hcn. unfold F1. destruct (Nat.lt_ge_cases c (length pre)) as [Hl|Hl].
+    + rewrite rebase_detach_before by exact Hl. now apply rebase_attach_before.
+    + rewrite rebase_detach_after by lia. rewrite rebase_attach_after by (auto; lia).
+      replace (S (c - 1)) with c by lia. reflexivity.
+Qed.
+Lemma splice_replace_spec ts rs pr cr tid ri T p kd pre x post tc rc C :
+  nth_error rs pr = Some (Some (mk_hnd tid p)) -> nth_error rs cr = Some (Some (mk_hnd tc [])) ->
+  nth_error ts tid = Some (mk_slot true ri T) -> get_path T p = Some (Node kd (pre ++ x :: post)) ->
+  nth_error ts tc = Some (mk_slot true rc C) -> tid <> tc ->
+  exists ts' F,
+    runs (m_splice pr (length pre) (S (length pre)) [cr]) (mk_state ts rs) tt
+         (mk_state ts' (map (option_map F) rs)) /\
+    length ts' = S (length ts) /\
+    nth_error ts' tid = Some (mk_slot true ri (upd_path T p (fun _ => Node kd (pre ++ C :: post)))) /\
+    nth_error ts' (length ts) = Some (mk_slot true (length pre) x) /\
+    (forall j, j <> tid -> j <> tc -> j < length ts -> nth_error ts' j = nth_error ts j) /\
+    F (mk_hnd tid (p ++ [length pre])) = mk_hnd (length ts) [] /\
+    F (mk_hnd tc []) = mk_hnd tid (p ++ [length pre]) /\
+    (forall g, h_tid g <> tc -> above tid p g -> F g = g).
+Proof.
+  intros Hp Hc HT HG HC Hne.
+  destruct (splice_replace_spec_x ts rs pr cr tid ri T p kd pre x post tc rc C Hp Hc HT HG HC Hne)
+    as (ts' & F & R & L & T' & N & O & S1 & S2 & A & _).
+  exists ts', F. auto 10.
 Qed.
 
 (* ------------------------------------------------------------------ splice_children(idx..idx, freshly built elements) *)
